@@ -1,7 +1,7 @@
 """Engine wrapper for Layer B (whole factories)."""
 import copy
 
-from . import factory, gen_b, oracles_b
+from . import factory, gen_b, oracles_b, oracles_b_final
 from .rng import rng_for, digest
 from .kernel import HarnessCap
 
@@ -20,6 +20,12 @@ def execute(case):
         ob.on_build_error(e)
         return run, ob
     ob.attach()
+    t1 = case.get("edge_report_at")
+    if t1 is not None and 0 < t1 < case["T"]:
+        # a report in the middle of the run: the edges' time averages are asked for at t1, then the simulation goes on
+        run.run(t1)
+        if run.crash is None:
+            oracles_b_final.edge_report(ob, t1, "mid-run")
     run.run(case["T"])
     ob.finish()
     return run, ob
